@@ -192,8 +192,20 @@ VIA_WRAPPER = {
 }
 
 
+_COV = []
+
+
 def coverage_labels(reached=None):
-    """Labels describing zoo coverage: classes discovered vs classes with a builder (leaf or wrapper)."""
+    """Labels describing zoo coverage: classes discovered vs classes with a builder (leaf or wrapper). Cached; modules attach
+    them to every case so that they stay inside the engine's top-80 histogram."""
+    if _COV:
+        return list(_COV)
+    labs = _coverage_labels()
+    _COV.extend(labs)
+    return list(labs)
+
+
+def _coverage_labels():
     disc = discovered_classes()
     have = set(ZOO) | set(VIA_WRAPPER)
     concrete = [n for n in disc if n not in ABSTRACT_OR_META]
